@@ -88,8 +88,9 @@ func VerifHarness_C17_main() {
 		vSetFlagStr("preset", "nopnano")
 		cfg = gmars.ConfigNopNano
 		// the other options are ignored with a preset: give them odd values
-		vSetFlagInt("s", 999)
-		vSetFlagInt("l", 7)
+		// (a core size below the placement, a length above the preset's)
+		vSetFlagInt("s", 7)
+		vSetFlagInt("l", 9)
 	} else {
 		vSetFlagInt("s", size)
 		vSetFlagInt("p", procs)
